@@ -130,6 +130,20 @@ u_buf(uint64_t idx, void *arg)
         if (got != exp)
             vh_fail("buffer", "api=ufw_crc16_arc", "n=%zu init=%04x got=%04x exp=%04x", n, init, got, exp);
         VH_COUNT("random buffers compared");
+        /* an empty part may be given as (NULL, 0) - the register protocol does that for an absent payload: the
+         * state passes through both variants unchanged, in the middle of a computation as well */
+        {
+            uint16_t e1 = ufw_crc16_arc(init, NULL, 0), e2 = ufw_crc16_arc_u16(init, NULL, 0);
+            size_t cut = n / 2;
+            uint16_t a = ufw_crc16_arc(init, b, cut);
+            a = ufw_crc16_arc(a, NULL, 0);
+            a = ufw_crc16_arc_u16(a, NULL, 0);
+            a = ufw_crc16_arc(a, b + cut, n - cut);
+            if (e1 != init || e2 != init || a != exp)
+                vh_fail("empty-part", "api=ufw_crc16_arc", "n=%zu init=%04x: over (NULL,0) octets -> %04x, words -> %04x; with empty parts "
+                        "in the middle %04x, expected %04x", n, init, e1, e2, a, exp);
+            VH_COUNT("empty part given as (NULL, 0)");
+        }
         if (init == 0) {
             uint16_t g2 = ufw_buffer_crc16_arc(b, n);
             if (g2 != exp)
